@@ -24,3 +24,12 @@ chk("C02", "exploration",
     "Trusted: vf/oracle/table.py definitions and tolerance classes; compounds judged against products of the "
     "library's own atomic scales; magnitudes beyond 1e+-280 excluded.",
     "exhaustive enumeration + Hypothesis-generated expressions vs independent exact evaluator", "DESIGN.md §3 C02")
+chk("C05", "exploration",
+    "All 21025 ordered pairs of atomic symbols exhaustively for identity, inverse, commutativity (including refusals "
+    "in both orders), the homomorphism onto an independent (scale, dimension-vector) model and equality in both "
+    "directions; thousands of Hypothesis-generated compound terms with rational/float exponents in default and "
+    "custom registries for associativity, power laws, hashing, simplify()/as_coeff_unit() and re-evaluation of the "
+    "carried expression (expression/scale/dimension synchronisation).",
+    "Trusted: dimension vectors read from unyt's sympy expressions as data; must-equal/must-differ thresholds 1e-12/1e-6; "
+    "float under/overflow of intermediates excluded by a magnitude budget.",
+    "exhaustive pair enumeration + Hypothesis algebraic-law testing against a (scale, dimvec) model", "DESIGN.md §3 C05")
